@@ -194,13 +194,13 @@ def harvest():
                 cid = _resolve_codemod_id(tree, cls)
                 if not cid:
                     continue
-                slot = out.setdefault(cid, {"seeds": [], "sast": [], "expected": []})
+                slot = out.setdefault(cid, {"seeds": [], "sast": [], "expected": [], "unchanged": []})
                 methods = [n for n in cls.body if isinstance(n, (ast.FunctionDef, ast.AsyncFunctionDef))]
                 # helper methods that carry the results document (e.g. _run_and_assert_with_results)
                 helper_docs = {}
                 for m in methods:
                     if not m.name.startswith("test"):
-                        tmp = {"seeds": [], "sast": [], "expected": []}
+                        tmp = {"seeds": [], "sast": [], "expected": [], "unchanged": []}
                         env = _harvest_function(m, tmp, bindings, {}, tree)
                         for call in [n for n in ast.walk(m) if isinstance(n, ast.Call)]:
                             kw = {k.arg: k.value for k in call.keywords if k.arg}
@@ -218,6 +218,7 @@ def harvest():
     for cid, slot in out.items():
         slot["seeds"] = list(dict.fromkeys(slot["seeds"]))
         slot["expected"] = list(dict.fromkeys(slot["expected"]))
+        slot["unchanged"] = list(dict.fromkeys(slot.get("unchanged", [])))
         seen = set()
         uniq = []
         for s in slot["sast"]:
@@ -257,6 +258,13 @@ def _harvest_function(fnode, slot, bindings=(), helper_docs=None, tree=None):
             if isinstance(vals, (ast.List, ast.Tuple)):
                 for el in vals.elts:
                     if isinstance(el, (ast.Tuple, ast.List)):
+                        vals_ = [(nm, _str(sub)) for nm, sub in zip(names, el.elts)]
+                        ins = [v for nm, v in vals_ if v is not None and INPUT_NAME.search(nm) and not OUTPUT_NAME.search(nm)]
+                        outs = [v for nm, v in vals_ if v is not None and OUTPUT_NAME.search(nm)]
+                        if ins and outs and ins[0] == outs[0]:
+                            u = _usable(ins[0])
+                            if u:
+                                slot.setdefault("unchanged", []).append(u)
                         for nm, sub in zip(names, el.elts):
                             s = _str(sub)
                             if s is not None and INPUT_NAME.search(nm) and not OUTPUT_NAME.search(nm):
@@ -319,6 +327,20 @@ def _harvest_function(fnode, slot, bindings=(), helper_docs=None, tree=None):
                 u = _usable(code)
                 if u:
                     slot["sast"].append({"code": u, "results": helper_docs[call.func.attr]})
+    # which inputs does the repository's own test expect to stay unchanged (negative tests)?
+    for call in [n for n in ast.walk(fnode) if isinstance(n, ast.Call)]:
+        if isinstance(call.func, ast.Attribute) and call.func.attr.startswith("run_and_assert") and len(call.args) >= 3:
+            def val(a):
+                v = _str(a)
+                if v is None and isinstance(a, ast.Name):
+                    v = env.get(a.id)
+                return v if isinstance(v, str) else None
+
+            a, b = val(call.args[1]), val(call.args[2])
+            if a is not None and b is not None and a == b:
+                u = _usable(a)
+                if u:
+                    slot.setdefault("unchanged", []).append(u)
     for s in inputs:
         u = _usable(s)
         if u:
